@@ -1063,7 +1063,7 @@ def run(R, escalate=False):
                 run_case(env, drv, scen, c, where="lengths")
             drv.close()
         # ---- random stream over scenarios
-        n_scen = 10 if not thorough else 60
+        n_scen = 10 if not thorough else 120
         per = 220 if not thorough else 600
         for si in range(n_scen):
             kind = ["none", "slot", "multi"][si % 3]
@@ -1102,7 +1102,7 @@ def replay(R, rp):
     try:
         run_corpus(env)
         f = rp.get("failure") or rp
-        case = f.get("case") or f
+        case = f if ("scenario" in f and "case" in f) else (f.get("case") or f)
         if isinstance(case, dict) and "scenario" in case and "case" in case:
             drv = reopen(case["scenario"], env)
             run_case(env, drv, case["scenario"], case["case"], where="replay")
